@@ -18,11 +18,12 @@ PROPS = {
  'C07': P('fault_enumeration',
           'fidelity cases = (schema, batch-size script, destination-size script, data seed) over 13 schemas incl. gob-only, pointer, odd-size pointer-free and custom-codec (frame.RegisterOps) types, '
           'empty batches, sizes around 128; damage cases = every single-bit flip and every truncation point of the encoded bytes of small '
-          '3-batch streams (exhaustive per stream) and random 1-6 byte bursts on 4-batch streams. Oracle: rows delivered == rows written '
+          '3-batch streams (exhaustive per stream) every value of the first byte (length prefix) of every gob message of those streams, and random 1-6 byte bursts on 4-batch streams; thorough adds a coverage-guided fuzz target (Go native fuzzing, 3 000 000 executions from the seed corpus, 9 schemas) whose inputs are judged by the same oracle when they are a prefix of, or within an 8-byte window of, the encoded stream, and structurally (no panic, n within bounds, canaries, earlier frames unchanged, termination) otherwise. Oracle: rows delivered == rows written '
           '(fidelity); for damage inside a batch: an error, every row delivered before it correct and not beyond the damaged batch. '
           'Non-trivial: fidelity with >=2 batches or a destination size differing from the batch size; every damage case.',
           variants={'quick': ['plain'], 'thorough': ['plain', 'checkptr']}, ulimit_v_kb=6000000,
-          must_observe=['bit_flips', 'truncations', 'damage_detected_as_error', 'rows_roundtripped']),
+          fuzz={'thorough': dict(target='FuzzC07Decode', execs=3000000, parallel=12, timeout=3000)},
+          must_observe=['bit_flips', 'truncations', 'length_byte_values', 'damage_detected_as_error', 'rows_roundtripped']),
  'C10': P('exploration',
           'cases = (kind sort|merge|reduce, schema, key prefix, rows per stream, key distribution, spill target, canary rows, SpillBatchSize, '
           'upstream chunk scripts incl. empty non-final reads for sort and n>0-with-EOF, destination-size script, optional injected upstream '
@@ -257,7 +258,7 @@ META = {
          '(exhaustive for those streams) and on random bursts, plus a fidelity sweep over batch/destination size scripts; the oracle '
          'is the written row sequence. Known, unrepairable-by-a-small-patch classes are listed in known_findings.json by signature.',
     note='Trusts encoding/gob, the row model and the destination adversary (readers.go). CRC32 collisions are ignored.',
-    technique='fault-injection over the byte stream with a written-rows oracle; destination-frame canaries'),
+    technique='fault-injection over the byte stream with a written-rows oracle; destination-frame canaries; coverage-guided fuzzing of the decoder (thorough)'),
  'C10': dict(
     text='Exploration: the real sortio readers are run on generated streams with hostile spill/canary/batch sizes, upstream chunkings and '
          'destination sizes; the oracle is a sort/merge/fold over the row model.',
